@@ -9,8 +9,8 @@ namespace Coll
 
 /-! ## facts about the list-level function -/
 
-theorem retainTail_escaped (bombs : List Id) (rest : List Id) :
-    ∀ kept o, (retainTail bombs kept rest o).escaped = [] := by
+theorem sieve_escaped (keep : Nat → Bool) (bombs : List Id) (rest : List Id) :
+    ∀ kept o, (sieve keep bombs kept rest o).escaped = [] := by
   induction rest with
   | nil => intro kept o; rfl
   | cons x rest ih =>
@@ -19,26 +19,28 @@ theorem retainTail_escaped (bombs : List Id) (rest : List Id) :
     | [] => rfl
     | .panic :: o => rfl
     | .ret b :: o =>
-      simp only [retainTail]
+      simp only [sieve]
       split
+      · exact ih _ o
       · split
         · rfl
         · exact ih kept o
-      · exact ih _ o
 
 /-- nothing is lost, nothing is duplicated: survivors and dropped values together are the input -/
-theorem retainTail_perm (bombs : List Id) (rest : List Id) :
-    ∀ kept o, ((retainTail bombs kept rest o).final ++ (retainTail bombs kept rest o).dropped).Perm (kept ++ rest) := by
+theorem sieve_perm (keep : Nat → Bool) (bombs : List Id) (rest : List Id) :
+    ∀ kept o, ((sieve keep bombs kept rest o).final ++ (sieve keep bombs kept rest o).dropped).Perm (kept ++ rest) := by
   induction rest with
-  | nil => intro kept o; simp [retainTail]
+  | nil => intro kept o; simp [sieve]
   | cons x rest ih =>
     intro kept o
     match o with
-    | [] => simp [retainTail]
-    | .panic :: o => simp [retainTail]
+    | [] => simp [sieve]
+    | .panic :: o => simp [sieve]
     | .ret b :: o =>
-      simp only [retainTail]
+      simp only [sieve]
       split
+      · have := ih (kept ++ [x]) o
+        simpa using this
       · split
         · simp only [List.append_assoc]
           exact List.Perm.append_left kept (List.perm_append_singleton x rest)
@@ -47,12 +49,10 @@ theorem retainTail_perm (bombs : List Id) (rest : List Id) :
           refine List.Perm.trans ?_ (List.Perm.trans (List.Perm.cons x this) ?_)
           · exact List.perm_middle
           · exact List.perm_middle.symm
-      · have := ih (kept ++ [x]) o
-        simpa using this
 
-theorem retainTail_length_le (bombs : List Id) (kept rest : List Id) (o : List Outcome) :
-    (retainTail bombs kept rest o).final.length ≤ kept.length + rest.length := by
-  have := (retainTail_perm bombs rest kept o).length_eq
+theorem sieve_length_le (keep : Nat → Bool) (bombs : List Id) (kept rest : List Id) (o : List Outcome) :
+    (sieve keep bombs kept rest o).final.length ≤ kept.length + rest.length := by
+  have := (sieve_perm keep bombs rest kept o).length_eq
   simp at this
   omega
 
@@ -68,21 +68,21 @@ theorem retainGuard_seg {v : Vec} {kept rest : List Id} {k read write origLen : 
   rw [copy_back hs (by simp [hr]) (by simp [hw]) rfl]
   simp [setLen, hw]
 
-/-- second loop of `retain` = `retainTail`, started with `k + 1` holes between the cursors -/
+/-- second loop of `retain` = `sieve`, started with `k + 1` holes between the cursors -/
 theorem retainLoop_eq (bombs : List Id) (rest : List Id) :
     ∀ (kept : List Id) (k : Nat) (T : List Slot) (v : Vec) (o : List Outcome) (origLen : Nat),
       v.slots = I kept ++ H (k + 1) ++ I rest ++ T → origLen = kept.length + (k + 1) + rest.length →
       retainLoop bombs origLen rest.length v (kept.length + (k + 1)) kept.length o =
-        .ok ⟨{ v with slots := I (retainTail bombs kept rest o).final ++ H (origLen - (retainTail bombs kept rest o).final.length) ++ T,
-                      len := (retainTail bombs kept rest o).final.length,
-                      dropLog := v.dropLog ++ (retainTail bombs kept rest o).dropped },
-             (retainTail bombs kept rest o).exit, (retainTail bombs kept rest o).rest⟩ := by
+        .ok ⟨{ v with slots := I (sieve (· != 0) bombs kept rest o).final ++ H (origLen - (sieve (· != 0) bombs kept rest o).final.length) ++ T,
+                      len := (sieve (· != 0) bombs kept rest o).final.length,
+                      dropLog := v.dropLog ++ (sieve (· != 0) bombs kept rest o).dropped },
+             (sieve (· != 0) bombs kept rest o).exit, (sieve (· != 0) bombs kept rest o).rest⟩ := by
   induction rest with
   | nil =>
     intro kept k T v o origLen hs ho
     simp only [List.length_nil, Nat.add_zero] at ho
     have : origLen - kept.length = k + 1 := by omega
-    simp only [List.length_nil, retainLoop, retainTail, setLen, List.append_nil, this]
+    simp only [List.length_nil, retainLoop, sieve, setLen, List.append_nil, this]
     congr 2
     simp [hs]
   | cons x rest ih =>
@@ -98,16 +98,16 @@ theorem retainLoop_eq (bombs : List Id) (rest : List Id) :
     have hgap : origLen - (kept ++ x :: rest).length = k + 1 := by simp; omega
     match o with
     | [] =>
-      simp only [retainTail, hguard, Except.map, hgap]
+      simp only [sieve, hguard, Except.map, hgap]
       simp
     | .panic :: o =>
-      simp only [retainTail, hguard, Except.map, hgap]
+      simp only [sieve, hguard, Except.map, hgap]
       simp
     | .ret b :: o =>
       have hs2 : (I kept ++ H (k + 1)) ++ Slot.hole :: (I rest ++ T) = I kept ++ H (k + 1 + 1) ++ I rest ++ T := by
         simp
       by_cases hb : b = 0
-      · simp only [hb, ↓reduceIte, retainTail]
+      · simp only [hb, ↓reduceIte, sieve, bne_self_eq_false, Bool.false_eq_true]
         rw [dropAt_mid hs1 (by simp)]
         simp only [Bool.not_false, Bool.true_and]
         by_cases hbomb : bombs.contains x = true
@@ -126,7 +126,8 @@ theorem retainLoop_eq (bombs : List Id) (rest : List Id) :
           have e : kept.length + (k + 1) + 1 = kept.length + (k + 1 + 1) := by omega
           rw [e, this]
           simp
-      · simp only [hb, ↓reduceIte, retainTail]
+      · have hk : (b != 0) = true := by simp [hb]
+        simp only [hb, ↓reduceIte, sieve, hk]
         have hs3 : v.slots = I kept ++ H (k + 1) ++ [Slot.init x] ++ (I rest ++ T) := by simp [hs]
         rw [copyNonoverlapping_back hs3 (by simp) (by simp) (by simp) (by simp)]
         have hs4 : I kept ++ [Slot.init x] ++ H (k + 1) ++ (I rest ++ T) = I (kept ++ [x]) ++ H (k + 1) ++ I rest ++ T := by
@@ -137,15 +138,15 @@ theorem retainLoop_eq (bombs : List Id) (rest : List Id) :
         have e2 : kept.length + 1 = (kept ++ [x]).length := by simp
         simp only [e1, e2, this]
 
-/-- first loop followed by the rest of `retain` = `retainTail` from the start -/
+/-- first loop followed by the rest of `retain` = `sieve` from the start -/
 theorem retainScan_eq (bombs : List Id) (rest : List Id) :
     ∀ (pre : List Id) (T : List Slot) (v : Vec) (o : List Outcome),
       v.slots = I pre ++ I rest ++ T → rest ≠ [] → v.len = pre.length + rest.length →
       (retainScan v rest.length pre.length o).bind (retainAfterScan bombs v v.len) =
-        .ok ⟨{ v with slots := I (retainTail bombs pre rest o).final ++ H (v.len - (retainTail bombs pre rest o).final.length) ++ T,
-                      len := (retainTail bombs pre rest o).final.length,
-                      dropLog := v.dropLog ++ (retainTail bombs pre rest o).dropped },
-             (retainTail bombs pre rest o).exit, (retainTail bombs pre rest o).rest⟩ := by
+        .ok ⟨{ v with slots := I (sieve (· != 0) bombs pre rest o).final ++ H (v.len - (sieve (· != 0) bombs pre rest o).final.length) ++ T,
+                      len := (sieve (· != 0) bombs pre rest o).final.length,
+                      dropLog := v.dropLog ++ (sieve (· != 0) bombs pre rest o).dropped },
+             (sieve (· != 0) bombs pre rest o).exit, (sieve (· != 0) bombs pre rest o).rest⟩ := by
   induction rest with
   | nil => intro pre T v o _ h; exact absurd rfl h
   | cons x rest ih =>
@@ -157,11 +158,11 @@ theorem retainScan_eq (bombs : List Id) (rest : List Id) :
       (by simp [hs]) (by simp [hl])
     simp only [List.length_cons, retainScan, hpeek, Except.bind]
     match o with
-    | [] => simp only [retainAfterScan, retainTail, hgap, hsame]
-    | .panic :: o => simp only [retainAfterScan, retainTail, hgap, hsame]
+    | [] => simp only [retainAfterScan, sieve, hgap, hsame]
+    | .panic :: o => simp only [retainAfterScan, sieve, hgap, hsame]
     | .ret b :: o =>
       by_cases hb : b = 0
-      · simp only [hb, ↓reduceIte, retainTail, retainAfterScan]
+      · simp only [hb, ↓reduceIte, sieve, retainAfterScan, bne_self_eq_false, Bool.false_eq_true]
         rw [dropAt_mid hs1 (by simp)]
         simp only [Bool.not_false, Bool.true_and]
         have hs2 : I pre ++ Slot.hole :: (I rest ++ T) = I pre ++ H (0 + 1) ++ I rest ++ T := by simp
@@ -181,10 +182,11 @@ theorem retainScan_eq (bombs : List Id) (rest : List Id) :
           have e : v.len - (pre.length + 1) = rest.length := by simp [hl]; omega
           rw [e, this]
           simp
-      · simp only [hb, ↓reduceIte, retainTail]
+      · have hk : (b != 0) = true := by simp [hb]
+        simp only [hb, ↓reduceIte, sieve, hk]
         by_cases hr : rest = []
         · subst hr
-          simp only [List.length_nil, ↓reduceIte, retainAfterScan, retainTail]
+          simp only [List.length_nil, ↓reduceIte, retainAfterScan, sieve]
           have hgap' : v.len - (pre ++ [x]).length = 0 := by simp [hl]
           have hsame' := Vec.eta_seg (v := v) (s := I (pre ++ [x]) ++ H 0 ++ T) (n := (pre ++ [x]).length)
             (by simp [hs]) (by simp [hl])
@@ -206,7 +208,7 @@ theorem retain_eq (bombs : List Id) (v : Vec) (xs : List Id) (o : List Outcome)
   by_cases h0 : v.len = 0
   · have : xs = [] := List.eq_nil_of_length_eq_zero (by omega)
     subst this
-    simp only [h0, ↓reduceIte, retainTail, Vec.after]
+    simp only [h0, ↓reduceIte, sieve, Vec.after]
     congr 2
     have := Vec.eta_seg (v := v) (s := I [] ++ H (v.cap - ([] : List Id).length)) (n := ([] : List Id).length)
       (by simp [hs, h0]) (by simp [h0])
@@ -217,8 +219,8 @@ theorem retain_eq (bombs : List Id) (v : Vec) (xs : List Id) (o : List Outcome)
     simp only [List.length_nil] at this
     rw [hl] at this
     rw [this]
-    simp only [Vec.after, retainTail_escaped, List.append_nil]
-    have hle := retainTail_length_le bombs [] xs o
+    simp only [Vec.after, sieve_escaped, List.append_nil]
+    have hle := sieve_length_le (· != 0) bombs [] xs o
     simp only [List.length_nil, Nat.zero_add] at hle
     congr 3
     rw [List.append_assoc, ← H_add]
